@@ -69,6 +69,8 @@ func viewCompleteness() error {
 		{"PSIPMsg", func() (interface{}, func(*view.Vec)) {
 			m := &sipsp.PSIPMsg{}
 			m.Init(nil, make([]sipsp.Hdr, 1), make([]sipsp.PFromBody, 1))
+			// a completely parsed message (Buf is part of the view only then)
+			sipsp.ParseSIPMsg([]byte("INVITE a SIP/2.0\r\nm:<b>\r\n\r\n"), 0, m, sipsp.SIPMsgSkipBodyF)
 			m.HL.N = 1
 			m.PV.Contacts.N = 1
 			m.PV.PAIs.N = 1
